@@ -106,7 +106,8 @@ register("HL_DONE_NOTIFY", "src/sync/transfer.rs",
 register("HL_RELINK_AFTER_TRANSFERS", "src/sync/mod.rs",
          # (88672a3, 3b1f2c2) names whose transfer failed are left out of the pass; a failure of the pass itself is recorded as an error
          r"let results = futures::future::join_all\(handles\)\.await;\s*(?://[^\n]*\s*)*\{\s*let stats = stats\.lock\(\)\.unwrap\(\);\s*for names in link_groups\.values_mut\(\) \{\s*"
-         r"names\.retain\(\|name\| !stats\.errors\.iter\(\)\.any\(\|e\| &e\.path == name\)\);\s*\}\s*\}\s*(?://[^\n]*\s*)*for \(path, e\) in relink_hard_link_groups\(&link_groups\) \{()", 1, "Z", ["C13"])
+         r"names\.retain\(\|name\| !stats\.errors\.iter\(\)\.any\(\|e\| &e\.path == name\)\);\s*\}\s*\}\s*(?://[^\n]*\s*)*\{\s*let stats = stats\.lock\(\)\.unwrap\(\);\s*planned_names\.retain\(\|\(name, _\)\| !stats\.errors\.iter\(\)\.any\(\|e\| &e\.path == name\)\);\s*\}\s*"
+         r"let mut link_failures = relink_hard_link_groups\(&link_groups\);\s*link_failures\.extend\(separate_foreign_links\(&planned_names\)\);\s*for \(path, e\) in link_failures \{()", 1, "Z", ["C13"])
 register("HL_RELINK_SHAPE", "src/sync/mod.rs",
          r"let Some\(\(keep, keep_meta\)\) = kept\.iter\(\)\.find\(\|\(_, k\)\| same_file\(k\)\) else \{\s*kept\.push\(\(name, meta\)\);\s*continue;\s*\};\s*"
          r"if keep_meta\.ino\(\) == meta\.ino\(\) \{\s*continue;\s*\}\s*let working = crate::temp_file::temp_path_for\(name\);\s*"
